@@ -23,6 +23,7 @@ def run(rep, tier, seed):
                         "every case runs in a child process with ceilings 45 s and 1.5 GB heap; budgets 300 and 30000 (recommended), parse budget 10^7 (recommended) except in the parse-budget family; normal, max and min mode",
                         "families: unbounded loops/recursion (also through computed values, templates, callbacks), huge dice counts, exploding WoD/DC pools (low add line, huge sides, max mode), doubling strings and containers, "
                         "budget sweep: corpus and generated programs under budgets 1..400 against their own run under budget 200000 (stopped with the budget error, or the same value/error); "
+                        "container lengths: repetition, concatenation and ranges around 512 elements in every operand order, in loops, functions, templates and computed values (the length returned is at most 512, or an error); "
                         "long sums around the 8192-instruction buffer, block/template/parenthesis/array nesting around 20, operand counts around 1000, long sources under small parse budgets",
                         "for capacity families the generator knows the value of the full program; a run that returns anything else without an error is a truncation"]
     with Work("c07") as w:
